@@ -345,7 +345,8 @@ MANIFEST = {
             "derivative of the five-arctanh map for all chi and all lengths with "
             "(r,aIn,aOut) on the 7 rational triples with rational radicals; rescaling histories "
             "of length <=3 equal a fresh grid; the inherited inverse is checked against the map "
-            "(known finding).",
+            "(known finding)."
+            " Rescaling histories include reading every accessor (with and without end points) before each rescale.",
     "note": "arctanh/log/exp/tanh as UFs with inverse and derivative rules; sqrt as algebraic "
             "root; the fully symbolic 3-scale Jacobian identity is beyond z3 and is NOT claimed.",
 }
